@@ -933,3 +933,154 @@ func rev32(x uint32) uint32 {
 	x = x>>8&0x00FF00FF | x&0x00FF00FF<<8
 	return x>>16 | x<<16
 }
+
+// ---- stage interfaces ----
+
+// spvString decodes a nul-terminated literal string starting at words[0]; returns the string
+// and the number of words it occupies.
+func spvString(words []uint32) (string, int) {
+	var b []byte
+	for i, w := range words {
+		for k := uint(0); k < 4; k++ {
+			c := byte(w >> (8 * k))
+			if c == 0 {
+				return string(b), i + 1
+			}
+			b = append(b, c)
+		}
+	}
+	return string(b), len(words)
+}
+
+func utoa(n uint32) string {
+	if n == 0 {
+		return "0"
+	}
+	s := ""
+	for n > 0 {
+		s = string(rune('0'+n%10)) + s
+		n /= 10
+	}
+	return s
+}
+
+// RunStage runs the entry point called name (Vertex or Fragment execution model). Input
+// variables are filled by interface key ("loc<N>", "position", "vertex_index",
+// "instance_index", "front_facing", "sample_index"); Output variables are returned by key
+// ("loc<N>" for vertex outputs, "color<N>" for fragment outputs, "position", "frag_depth").
+// interp maps "in:<key>" / "out:<key>" of user locations to the canonical interpolation
+// given by the Flat / NoPerspective / Centroid / Sample decorations.
+func (e *Exec) RunStage(name string, in map[string][]uint32) (out map[string][]uint32, interp map[string]string, ok bool) {
+	out, interp = map[string][]uint32{}, map[string]string{}
+	var entry, model uint32
+	var iface map[uint32]bool
+	found := false
+	for _, ins := range e.insts {
+		if ins.Op == opEntryPoint && len(ins.Words) >= 3 {
+			if s, n := spvString(ins.Words[2:]); s == name {
+				entry, model, found = ins.Words[1], ins.Words[0], true
+				iface = map[uint32]bool{}
+				for _, id := range ins.Words[2+n:] {
+					iface[id] = true
+				}
+			}
+		}
+	}
+	zz.Assert(found, "entry point not found in the emitted module")
+	if !found {
+		return nil, nil, false
+	}
+	fragment := model == 4
+	deco := func(id, d uint32) (uint32, bool) { return e.typeDeco(id, d) }
+	type outVar struct {
+		key   string
+		store *Tree
+	}
+	var outs []outVar
+	for _, ins := range e.insts {
+		if ins.Op == 54 {
+			break
+		}
+		if ins.Op != opVariable {
+			continue
+		}
+		pt := e.types[ins.Words[0]]
+		if pt.Op != 32 {
+			continue
+		}
+		id, class := ins.Words[1], ins.Words[2]
+		store := e.zero(pt.words[2])
+		if len(ins.Words) > 3 {
+			if c, ok := e.consts[ins.Words[3]]; ok {
+				store = c.clone()
+			}
+		}
+		e.globals[id] = store
+		if class != 1 && class != 3 {
+			continue
+		}
+		if !iface[id] {
+			continue // belongs to another entry point
+		}
+		key := ""
+		if l, ok := deco(id, 30); ok { // Location
+			key = "loc" + utoa(l)
+			if class == 3 && fragment {
+				key = "color" + utoa(l)
+			}
+			kind, samp := "perspective", ""
+			if _, f := deco(id, 14); f {
+				kind = "flat"
+			}
+			if _, f := deco(id, 13); f {
+				kind = "linear"
+			}
+			if _, f := deco(id, 16); f {
+				samp = " centroid"
+			}
+			if _, f := deco(id, 17); f {
+				samp = " sample"
+			}
+			if kind == "flat" {
+				samp = ""
+			}
+			if class == 1 {
+				interp["in:"+key] = kind + samp
+			} else if !fragment {
+				interp["out:"+key] = kind + samp
+			}
+		} else if b, ok := deco(id, 11); ok { // BuiltIn
+			switch b {
+			case 0, 15:
+				key = "position"
+			case 42, 5:
+				key = "vertex_index"
+			case 43, 6:
+				key = "instance_index"
+			case 17:
+				key = "front_facing"
+			case 22:
+				key = "frag_depth"
+			case 18:
+				key = "sample_index"
+			}
+		}
+		if key == "" {
+			continue
+		}
+		if class == 1 {
+			if w, ok := in[key]; ok {
+				Fill(store, w, new(int))
+			}
+		} else {
+			outs = append(outs, outVar{key, store})
+		}
+	}
+	e.call(entry, nil, nil, 0)
+	for _, o := range outs {
+		_, dup := out[o.key]
+		zz.Assert(!dup, "two Output variables are bound to one interface key")
+		out[o.key] = Flatten(o.store, nil)
+	}
+	return out, interp, true
+}
